@@ -130,6 +130,10 @@ type Frame struct {
 	env      map[ssa.Value]*Val
 	events   map[string]*Event
 	sites    map[ssa.Instruction]siteInfo
+	// per havocLoop: fields of local struct cells the loop stores to (field-granular havoc)
+	loopFields map[string]map[int]bool
+	loopWhole  map[string]bool
+	loopFieldT map[string]types.Type
 	entry    *State
 	params   map[string]TV // entry values of parameters, by name
 	heapCell map[*ssa.Alloc]bool
@@ -1145,7 +1149,7 @@ func (fr *Frame) enterLoop(l *loop, st *State) error {
 		fr.oblige("invariant-entry", fmt.Sprintf("loop%d/range", l.ordinal), implies(fr.reach, lr.autoInv(st)), token.NoPos, "range index bounds on entry")
 	}
 	for i, cl := range invs {
-		t, err := ec.evalBool(cl.Expr)
+		t, err := ec.evalClause(cl.Expr)
 		if err != nil {
 			c.stale = append(c.stale, fmt.Sprintf("%s:%d: %v", cl.File, cl.Line, err))
 			continue
@@ -1165,6 +1169,44 @@ func (fr *Frame) enterLoop(l *loop, st *State) error {
 		}
 	} else {
 		lr.frameKeys = nil
+	}
+	// call sites inside the loop: at the head of an arbitrary iteration the event of a site is the
+	// call made in some earlier iteration (if any): arbitrary arguments and results, constrained
+	// only by the invariants (which are checked against the real events at the back edge)
+	if len(invs) > 0 {
+		var ins []ssa.Instruction
+		for in, si := range fr.sites {
+			if l.body[in.Block()] && si.key != "" {
+				ins = append(ins, in)
+			}
+		}
+		sort.Slice(ins, func(i, j int) bool {
+			a, b := fr.sites[ins[i]], fr.sites[ins[j]]
+			if a.key != b.key {
+				return a.key < b.key
+			}
+			return a.ord < b.ord
+		})
+		for _, in := range ins {
+			si := fr.sites[in]
+			cc, ok := in.(ssa.CallInstruction)
+			if !ok {
+				continue
+			}
+			com := cc.Common()
+			ev := &Event{did: c.sc.fresh("prev_did", SBool), block: in.Block(), key: si.key, ord: si.ord}
+			if com.IsInvoke() {
+				ev.args = append(ev.args, TV{T: c.freshOfType("prev_arg", com.Value.Type()), Ty: com.Value.Type()})
+			}
+			for _, a := range com.Args {
+				ev.args = append(ev.args, TV{T: c.freshOfType("prev_arg", a.Type()), Ty: a.Type()})
+			}
+			res := com.Signature().Results()
+			for i := 0; i < res.Len(); i++ {
+				ev.rets = append(ev.rets, TV{T: c.freshOfType("prev_ret", res.At(i).Type()), Ty: res.At(i).Type()})
+			}
+			fr.events[fmt.Sprintf("%s#%d", si.key, si.ord)] = ev
+		}
 	}
 	ec = fr.evalCtx(st, fr.entry, l.head.Instrs[0].Pos())
 	ec.rangeIx = lr.rangeIx
@@ -1258,6 +1300,8 @@ func (fr *Frame) havocLoop(l *loop, st *State) []string {
 	sort.Slice(blocks, func(i, j int) bool { return blocks[i].Index < blocks[j].Index })
 	cells := map[string]Sort{}
 	heaps := map[string]bool{}
+	fr.loopFields, fr.loopWhole, fr.loopFieldT = map[string]map[int]bool{}, map[string]bool{}, map[string]types.Type{}
+	defer func() { fr.loopFields, fr.loopWhole, fr.loopFieldT = nil, nil, nil }()
 	for _, b := range blocks {
 		for _, in := range b.Instrs {
 			fr.markEscaped(in)
@@ -1310,6 +1354,22 @@ func (fr *Frame) havocLoop(l *loop, st *State) []string {
 	sort.Strings(keys)
 	for _, k := range keys {
 		if st.has(k) {
+			if fs := fr.loopFields[k]; len(fs) > 0 && !fr.loopWhole[k] {
+				if si := c.structInfoOf(fr.loopFieldT[k]); si != nil {
+					cur := c.get(st, k)
+					idx := make([]int, 0, len(fs))
+					for f := range fs {
+						idx = append(idx, f)
+					}
+					sort.Ints(idx)
+					for _, f := range idx {
+						cur = c.sc.define("lhf", c.fieldUpd(cur, fr.loopFieldT[k], f, c.sc.fresh("lh_"+k+"_f", si.fields[f])))
+					}
+					st.set(k, cur)
+					fr.wfKey(k, st)
+					continue
+				}
+			}
 			st.set(k, c.sc.fresh("lh_"+k, c.keys[k].sort))
 			fr.wfKey(k, st)
 		}
@@ -1360,13 +1420,16 @@ func (fr *Frame) havocTarget(addr ssa.Value, cells map[string]Sort, heaps map[st
 	}
 	// walk to the root of the address expression
 	root := addr
+	var last ssa.Value // the address step applied directly to the root
 	for {
 		switch x := root.(type) {
 		case *ssa.FieldAddr:
+			last = x
 			root = x.X
 			continue
 		case *ssa.IndexAddr:
 			if _, isPtr := x.X.Type().Underlying().(*types.Pointer); isPtr {
+				last = x
 				root = x.X
 				continue
 			}
@@ -1381,6 +1444,18 @@ func (fr *Frame) havocTarget(addr ssa.Value, cells map[string]Sort, heaps map[st
 	if a, ok := root.(*ssa.Alloc); ok && !fr.heapCell[a] {
 		k := fr.cellKey(a)
 		cells[k] = c.sortOf(a.Type().(*types.Pointer).Elem())
+		// a store through a field of a local struct changes that field only
+		if fr.loopFields != nil {
+			if fa, ok := last.(*ssa.FieldAddr); ok && !fr.loopWhole[k] {
+				if fr.loopFields[k] == nil {
+					fr.loopFields[k] = map[int]bool{}
+					fr.loopFieldT[k] = a.Type().(*types.Pointer).Elem()
+				}
+				fr.loopFields[k][fa.Field] = true
+			} else {
+				fr.loopWhole[k] = true
+			}
+		}
 		return
 	}
 	if g, ok := root.(*ssa.Global); ok {
